@@ -8,5 +8,6 @@ func init() {
 		"the sampled share of TraceIDRatioBased(r) over 4096 hash-derived trace IDs is judged with a Bernstein bound (failure probability < 1e-15 per case) instead of a plain 6 sigma band; the threshold is not re-implemented",
 		"a NaN ratio is only exercised for absence of panics",
 		"uniqueness of span IDs is evaluated within one run (one provider); IDs of supplied remote parents do not count as handed out",
+		"samplers configured through OTEL_TRACES_SAMPLER / OTEL_TRACES_SAMPLER_ARG are judged against the programmatic sampler for the number the argument text denotes (as strconv.ParseFloat reads the blank-trimmed text) when that number is in [0,1]; unparsable, NaN, out-of-range or missing arguments are only run for absence of panics (their fallbacks are C20's subject)",
 	))
 }
